@@ -437,6 +437,7 @@ func (esp *EntityStreamParser) parseRefArray(decoder *json.Decoder) ([]string, e
 			if v == ']' {
 				return array, nil
 			}
+			return nil, errors.New("reference array must contain only strings")
 		case string:
 			nsRef, err := esp.store.GetNamespacedIdentifier(v, esp.localNamespaces)
 			if err != nil {
